@@ -259,6 +259,8 @@ HOSTILE: list[Any] = [
     "Infinity", "50%", "%s", "%(x)s", "{0}", "0x10", "１２", "٣", "1_000", "--1", "+5", " 7 ",
     "a,b", "<b>x</b>", "&lt;", "\ud800", "\x00", "\n", "é" * 3, "%", "%%", "%(", "%(x",
     "now", "today", "2020-13-45", "12345678901234567890",
+    # characters that str.isdigit / isnumeric / isdecimal classify differently from int()
+    "²", "①", "⑴", "2024²", "₂", "½", "Ⅷ", "〇", "٣٤", "๓", "𝟙𝟚", "1²3", "²²²²²²²²²²",
     [], [1, 2, 3], ["abc"], ["a", 1, None, 2.5], [[1, 2], [3]], [None], [{}], [{"k": 1}, {"k": "x"}, {}],
     [float("nan")], [10**400], [-1, "b", [2]], ["1", "2", "x"], [{"k": [1]}, {"k": {"z": 1}}],
     [float("inf"), float("-inf")], ["1e999999999", 1], ["NaN", "sNaN", 1], ["Infinity", "-Infinity"],
